@@ -210,6 +210,52 @@ theorem url_consulted_iff_model_cache_miss (E : Agd.Refresh.Env) (txt : Nat → 
         exact fun e => hd ((htxt _).mp e)
     simp [useCachedOrRefreshFromURL, names, diskText, hc]
 
+/-! ## Round 6: the hand model's `fromURL` equals the translated `refreshFromURL` -/
+
+section
+open Agd.Refresh
+/-- How a server behaviour `r` of the hand model appears at the opaque calls of `refreshFromURL`
+(healthy file system, body closes without error): `Get` fails for `getErr`; `CheckStatus` fails for a
+status other than 200; `io.Copy` through the limit reader fails when the transfer is cut or the limit
+is hit; `b.Len()` is the length of the content. -/
+def getOf : Resp → Option String
+  | .getErr => some "get"
+  | _ => none
+def statusOf : Resp → Option String
+  | .resp status _ _ _ => if status ≠ 200 then some "status" else none
+  | _ => none
+def copyOf (E : Env) (max : Nat) : Resp → Option String
+  | .resp _ c cut eofLast => if cut || limitHit max (E.len c) eofLast then some "copy" else none
+  | _ => none
+def lenOf (E : Env) : Resp → Int
+  | .resp _ c _ _ => (E.len c : Int)
+  | _ => 0
+
+/-- **The hand model's `fromURL` is the translated `refreshFromURL`**: for every server behaviour the
+temporary file is handed to `withDeferredTmpCleanup` with a nil error — that is, by
+`cleanup_or_replace`, atomically replaces the cache file — exactly when the model's `fromURL`
+returns a content; in every other case it is handed over with an error and removed. -/
+theorem fromURL_tr (E : Env) (max : Nat) (r : Resp) (f : S_refreshable_Refreshable) (dir : String)
+    (tf get mw : AbsPtr) (cl : Option String) (n : Int) (txt : String) :
+    let out := refreshFromURL f dir (tf, none) (get, getOf r) cl (statusOf r) none mw (n, copyOf E max r) (lenOf E r) txt
+    (cleanupArg out.2.2 = some "nil" ↔ (fromURL E max r).isSome) ∧
+    (cleanupArg out.2.2 = some "err" ↔ fromURL E max r = none) ∧
+    ((fromURL E max r).isSome → out.1 = txt) ∧ (fromURL E max r = none → out.1 = "") := by
+  cases r with
+  | getErr => simp [refreshFromURL, cleanupArg, getOf, fromURL]
+  | resp status c cut eofLast =>
+    generalize hl : E.len c = l
+    by_cases h4 : l = 0
+    · subst h4
+      by_cases h1 : status = 200 <;> cases cut <;> cases h3 : limitHit max 0 eofLast <;>
+        simp [refreshFromURL, cleanupArg, getOf, statusOf, copyOf, lenOf, fromURL, h1, h3, hl]
+    · by_cases h1 : status = 200 <;> cases cut <;> cases h3 : limitHit max l eofLast <;>
+        simp [refreshFromURL, cleanupArg, getOf, statusOf, copyOf, lenOf, fromURL, h1, h3, h4, hl]
+
+example : (fromURL { len := fun c => c, idx := fun _ => none, svc := fun _ => none, hashOk := fun _ => true } 10
+    (.resp 200 5 false false)).isSome := by decide
+end
+
 end Agd.Tie.TrC13
 
 #print axioms Agd.Tie.TrC13.translation_complete
@@ -229,3 +275,4 @@ end Agd.Tie.TrC13
 #print axioms Agd.Tie.TrC13.cache_error_stops_refresh
 #print axioms Agd.Tie.TrC13.fromFile_tr
 #print axioms Agd.Tie.TrC13.url_consulted_iff_model_cache_miss
+#print axioms Agd.Tie.TrC13.fromURL_tr
